@@ -55,6 +55,9 @@ type failCase struct {
 func genCase(via string) *rapid.Generator[hist] {
 	return rapid.Custom(func(t *rapid.T) hist {
 		c := config_{Via: via}
+		if via == "plugin" && rapid.IntRange(0, 2).Draw(t, "group-names") == 0 {
+			c.Names = "free"
+		}
 		c.Quota = rapid.IntRange(1, 3).Draw(t, "quota")
 		c.WindowS = rapid.IntRange(1, 3).Draw(t, "window_s")
 		c.Size = rapid.IntRange(1, 4).Draw(t, "size")
